@@ -65,7 +65,9 @@ def run(tier):
                 w = sstrun.writer_cfg(rng, pairs[(ti + rd) % 16] if thorough else None)
                 if fam in ("hugelast", "long", "len128") and len(cases) % 2 == 0:
                     w["bloomn"] = 1000000    # a roomy filter: a key hashed differently by writer and reader is then reported absent, not masked
-                cases.append(dict(w, writes=[{"k": k, "v": v, "fault": ""} for k, v in acc], readers=sstrun.reader_cfgs(rng), probes=probes, ranges=ranges))
+                # every third case: the same content in the legacy (version 0) table layout the readers still accept (applies to tables of plain values)
+                cases.append(dict(w, writes=[{"k": k, "v": v, "fault": ""} for k, v in acc], readers=sstrun.reader_cfgs(rng), probes=probes, ranges=ranges,
+                                  v0=(len(cases) % 3 == 2)))
             batches.append(("tlc-%s-%d-%d" % (fam, rd, bi), fams[fam], concrete.value_family(vf, vals_tok, rng), cases))
     # big seeded tables
     nbig = 12 if thorough else 3
